@@ -120,6 +120,7 @@ type assignLoc struct {
 	sort   Sort
 	si     *structInfo
 	styp   types.Type
+	cond   *Term // conditional frame (nil = unconditional)
 }
 
 type FnCtx struct {
@@ -153,12 +154,15 @@ type FnCtx struct {
 	axiomsOn  bool
 	lastGhost *LV
 	asgOut    *[]assignLoc
+	asgCond   *Term
 	recDone   map[string]bool
 	recBody   *ssa.Function
 	termAxioms []*Term
 	freshBase *Term
 	ghostByType map[string][]ghostField
 	inlinedExt  map[string]bool
+	axiomsUsed  []string
+	coverCond   *Term
 }
 
 type ghostField struct {
@@ -198,7 +202,16 @@ func isByte(t types.Type) bool {
 	return ok && b.Kind() == types.Uint8
 }
 
+// isMathint: the ghost type vspec.Mathint denotes mathematical (unbounded) integers.
+func isMathint(t types.Type) bool {
+	n, ok := t.(*types.Named)
+	return ok && n.Obj().Name() == "Mathint" && n.Obj().Pkg() != nil && n.Obj().Pkg().Path() == VspecPath
+}
+
 func intInfo(t types.Type) (bits uint, signed bool, ok bool) {
+	if isMathint(t) {
+		return 0, false, false
+	}
 	b, ok2 := t.Underlying().(*types.Basic)
 	if !ok2 {
 		return 0, false, false
